@@ -146,9 +146,11 @@ func (e *Encoder) writeObject(data interface{}) (int, error) {
 			return 0, newCodecError("writeObject", "unsupported unexported field %s of %v", typ.Field(i).Name, typ)
 		}
 	}
-	clsName, ok := e.nameMap[typ.Name()]
+	// TypeName is the key ExtractTypeNameMap uses: the type's name, or its full description for a struct type
+	// without a name (never the empty string, which every unnamed map type would share)
+	clsName, ok := e.nameMap[TypeName(typ)]
 	if !ok {
-		clsName = typ.Name()
+		clsName = TypeName(typ)
 		e.nameMap[clsName] = clsName
 	}
 	length, ok := e.existClassDef(clsName)
